@@ -77,6 +77,8 @@
 
 #![no_std]
 extern crate alloc;
+#[cfg(datamatrix_verif)]
+extern crate std;
 
 mod decodation;
 mod encodation;
@@ -85,6 +87,9 @@ pub mod placement;
 mod symbol_size;
 
 pub mod data;
+
+#[cfg(datamatrix_verif)]
+pub mod verif;
 
 pub use encodation::EncodationType;
 pub use symbol_size::{SymbolList, SymbolSize};
